@@ -179,7 +179,7 @@ var mutDict = map[string][]string{
 	"xml":  {"<a>", "</a>", "<b/>", "<!--c-->", "<![CDATA[x]]>", "<?pi?>", " a=\"1\"", " b='2'", "&amp;", "&lt;", "&#10;", "&#x3C;", "]]>", " ", "\n", ">", "<", "\"", "'", "="},
 	"svg":  {"<g>", "</g>", "<path d=\"M0 0L1 1z\"/>", " fill=\"#ff0000\"", " style=\"fill:red\"", "<!--c-->", "<![CDATA[x]]>", "&amp;", "&#60;", " ", "\n", "M1 1", "z", "a1 1 0 0 1 2 2", "1e-3", "-.5", " xlink:href=\"#a\"", "<style>a{b:c}</style>", "<text> a </text>", " viewBox=\"0 0 1 1\""},
 	"css":  {"{", "}", ";", ":", "(", ")", "[", "]", "\"", "'", "/*c*/", "url(x)", "url(\"y\")", "!important", "@media screen{", "#fff", "rgb(1,2,3)", "0px", "1e3", ".5em", "calc(1px + 2%)", "var(--x)", "--x:{a}", ",", ">", "+", "~", "\\", "\n", "\\31 ", "U+0-7F"},
-	"html": {"<p>", "</p>", "<div>", "</div>", "<li>", "<td>", "<br>", "<!--c-->", "<script>x=1</script>", "<style>a{b:c}</style>", " class=\"a b\"", " id=x", " title='q'", " href=\"http://a/b\"", " disabled", "&amp;", "&lt;", "&#39;", " ", "\n", "<pre> x </pre>", "<textarea> y </textarea>", "<svg><path d=\"M0 0\"/></svg>", "<b>", "</b>", "<a>", "<span> ", "\"", "'", "=", ">", "<"},
+	"html": {"<p>", "</p>", "<div>", "</div>", "<li>", "<td>", "<br>", "<!--c-->", "<script>x=1</script>", "<style>a{b:c}</style>", " class=\"a b\"", " id=x", " title='q'", " href=\"http://a/b\"", " disabled", "&amp;", "&lt;", "&#39;", " ", "\n", "<pre> x </pre>", "<textarea> y </textarea>", "<svg><path d=\"M0 0\"/></svg>", "<b>", "</b>", "<a>", "<span> ", "\"", "'", "=", ">", "<", " src=https", " src=http:", " href=https:", " action=data:", " poster=data:,", " src=//", " src=HTTPS", " cite=http", "<img src=https>"},
 }
 
 func mutate(r *core.Rand, lang string, in []byte, other []byte) []byte {
